@@ -717,6 +717,75 @@ class LockCheck:
                         "%s on the real kernel futex: %s at %s" % (self.lock, b["code"], json.dumps(ev)),
                         {"mode": "real", "spec": spec, "event": ev, "note": "free-running, not deterministic: re-run `sched real` with this spec"})
 
+    def selftest(self, tour_cfg, seeded=True):
+        """Anti-vacuity (DESIGN.md 3.3): (1) corrupted copies of accepted traces must be rejected by the
+        judge with the expected code; (2) the seeded mutants of this property must be detected, the
+        behaviour-preserving ones must not (scratch worktrees via bin/mutant-test)."""
+        import copy
+        import glob
+        import subprocess
+        chk = core.Check(self.pid, "selftest", "model_checking")
+        bindir = core.cargo_build(bins=["sched"])
+        name, n, progs, budgets = tour_cfg
+        cfg = self.write_cfg(chk, name, n, progs, budgets)
+        _, g = dump_graph(chk, "%s_MC.tla" % self.prefix, cfg, "%s_self_%s" % (self.lock, name))
+        paths, _, _ = transition_tour(g, max_paths=60)
+        runs, divs, _, _ = replay_paths(chk, bindir, self.bind, g, paths, self.PROGS[progs], "%s_self" % self.lock)
+        ok = True
+        base = judge_runs(chk, runs, "self_base")
+        print("selftest: %d recorded runs, %d rejected unmodified (expected 0), %d divergent (expected 0)" % (len(runs), len(base), len(divs)))
+        ok &= not base and not divs
+        unlock_new = 0
+        cases = []
+        # (a) every releasing RMW logged as Relaxed -> race
+        a = copy.deepcopy(runs)
+        for r in a:
+            for e in r["events"]:
+                if (e["ev"] == "swap" and e.get("new") == unlock_new) or e["ev"] == "fsub":
+                    e["ord"] = "Relaxed"
+        cases.append(("release orderings rewritten to Relaxed", a, "race"))
+        # (b) the run ends with a thread still parked -> lost_wakeup
+        b = copy.deepcopy(runs)
+        for r in b:
+            r["end"]["blocked"] = [1]
+        cases.append(("end event claims a parked thread", b, "lost_wakeup"))
+        # (c) a second guard is handed out while one exists -> exclusion
+        c = copy.deepcopy(runs)
+        for r in c:
+            for i, e in enumerate(r["events"]):
+                if e["ev"] == "ret" and e.get("ok") and e["fn"] in ("lock", "write"):
+                    other = 2 if e["t"] == 1 else 1
+                    r["events"].insert(i + 1, {"ev": "ret", "t": other, "fn": e["fn"], "ok": True})
+                    break
+        cases.append(("an extra guard handed out", c, "exclusion"))
+        # (d) a FUTEX_WAIT inside a try call -> try_blocks
+        d = copy.deepcopy(runs)
+        for r in d:
+            for i, e in enumerate(r["events"]):
+                if e["ev"] == "call" and e["fn"].startswith("try_"):
+                    r["events"].insert(i + 1, {"ev": "wait", "t": e["t"], "loc": "futex", "res": "eagain"})
+                    break
+        cases.append(("a wait inside a try call", d, "try_blocks"))
+        for what, rs, code in cases:
+            v = judge_runs(chk, rs, "self_" + code)
+            hit = sum(1 for b_ in v.values() if b_["code"] == code)
+            print("selftest: %-45s -> %d of %d runs rejected with %s" % (what, hit, len(rs), code))
+            ok &= hit > 0
+        if seeded:
+            procs = []
+            for dname in sorted(glob.glob(os.path.join(core.VERIF, "seeded", self.pid + "-*"))):
+                meta = json.load(open(os.path.join(dname, "meta.json")))
+                procs.append((dname, meta, subprocess.Popen([os.path.join(core.VERIF, "bin", "mutant-test"), os.path.join(dname, "patch.diff"), self.pid],
+                                                            stdout=subprocess.PIPE, stderr=subprocess.STDOUT, text=True)))
+            for dname, meta, p in procs:
+                out, _ = p.communicate()
+                detected = p.returncode == 0
+                want = meta.get("expect", "VIOLATION") == "VIOLATION"
+                print("selftest: seeded %-32s detected=%s expected=%s %s" % (os.path.basename(dname), detected, want, "ok" if detected == want else "MISMATCH"))
+                ok &= detected == want
+        print("%s selftest %s" % (self.pid, "OK" if ok else "FAILED"))
+        return 0 if ok else 2
+
     def replay(self, path):
         rp = json.load(open(path))["replay"]
         if rp.get("mode") == "real":
